@@ -24,6 +24,7 @@ import (
 	"testing"
 	"time"
 
+	"github.com/miekg/dns"
 	vegeta "github.com/tsenart/vegeta/v12/lib"
 )
 
@@ -55,7 +56,47 @@ type cmdCase struct {
 	Stall     bool   `json:"stall"`
 	Head      bool   `json:"head"`
 	Lookup    bool   `json:"lookup"`
+	DNSDest   string `json:"dnsdest"` // "none" | "forever" | "off": the -connect-to destination is a name served by e2eDNS
 }
+
+// e2eDNS is the address of the driver's DNS server (given to the command with -resolvers); e2eDNSQueries counts the
+// address (A) queries it received per name.
+var (
+	e2eDNS        string
+	e2eDNSMu      sync.Mutex
+	e2eDNSQueries = map[string]int{}
+)
+
+func startE2EDNS(t *testing.T) {
+	h := dns.HandlerFunc(func(w dns.ResponseWriter, r *dns.Msg) {
+		m := &dns.Msg{}
+		m.SetReply(r)
+		if len(r.Question) == 1 {
+			q := r.Question[0]
+			name := strings.ToLower(q.Name)
+			if !strings.HasSuffix(name, ".dest.test.") {
+				m.SetRcode(r, dns.RcodeNameError)
+			} else if q.Qtype == dns.TypeA {
+				e2eDNSMu.Lock()
+				e2eDNSQueries[name]++
+				e2eDNSMu.Unlock()
+				m.Answer = append(m.Answer, &dns.A{Hdr: dns.RR_Header{Name: q.Name, Rrtype: dns.TypeA, Class: dns.ClassINET, Ttl: 60}, A: net.IPv4(127, 0, 0, 1).To4()})
+			} // any other type: the name exists, no such record
+		}
+		_ = w.WriteMsg(m)
+	})
+	started := make(chan struct{})
+	srv := &dns.Server{Addr: "127.0.0.1:0", Net: "udp", Handler: h, NotifyStartedFunc: func() { close(started) }}
+	go func() { _ = srv.ListenAndServe() }()
+	select {
+	case <-started:
+	case <-time.After(5 * time.Second):
+		t.Fatal("the driver's DNS server did not start")
+	}
+	e2eDNS = srv.PacketConn.LocalAddr().String()
+}
+
+func (c cmdCase) dnsName(dir string) string { return filepath.Base(dir) + ".dest.test" }
 
 func (c cmdCase) valid() bool {
 	if (c.Server == "tls" || c.Server == "tls2") != (c.Trust != "na") {
@@ -86,6 +127,9 @@ func (c cmdCase) valid() bool {
 		return false
 	}
 	if c.Lookup && (c.Server != "plain" || c.ConnectTo || c.LAddr || c.HostHdr) {
+		return false
+	}
+	if c.DNSDest != "none" && !(c.ConnectTo && c.Server == "plain" && c.Hosts == 1 && !c.KeepAlive && !c.LAddr && c.Timeout == "default" && c.MaxConn == 0) {
 		return false
 	}
 	return true
@@ -206,7 +250,13 @@ func (c cmdCase) op(dir string) map[string]any {
 	if c.Timeout == "short" {
 		args = append(args, "-timeout", "50ms")
 	}
-	if c.ConnectTo {
+	if c.DNSDest != "none" {
+		// the mapped destination is a name, to be looked up through -resolvers under the -dns-ttl policy
+		args = append(args, "-connect-to", "E2E.invalid:{{PORT}}:"+c.dnsName(dir)+":{{PORT}}", "-resolvers", e2eDNS)
+		if c.DNSDest == "off" {
+			args = append(args, "-dns-ttl", "-1")
+		}
+	} else if c.ConnectTo {
 		args = append(args, "-connect-to", "E2E.invalid:{{PORT}}:{{ADDR}}")
 		if c.Hosts == 2 {
 			args = append(args, "-connect-to", "E2Eb.invalid:{{PORT}}:{{ADDR}}")
@@ -256,6 +306,9 @@ func TestDrv_E2E(t *testing.T) {
 			if err := json.Unmarshal(line, &c); err != nil {
 				return err
 			}
+			if c.DNSDest == "" {
+				c.DNSDest = "none"
+			}
 			cases = append(cases, c)
 			tlcCases++
 			return nil
@@ -295,12 +348,19 @@ func TestDrv_E2E(t *testing.T) {
 		c.HostHdr = r.Intn(5) == 0
 		c.Head = r.Intn(4) == 0
 		c.Lookup = localhostResolves && r.Intn(6) == 0
+		c.DNSDest = "none"
+		if n%8 == 5 {
+			c.DNSDest, c.ConnectTo, c.KeepAlive, c.Hosts = pick("forever", "off"), true, false, 1
+		}
 		if !c.valid() {
 			continue
 		}
 		cases = append(cases, c)
 		n++
 	}
+	// -resolvers replaces the process-wide resolver of the command's process for good: the cases that use it run last
+	sort.SliceStable(cases, func(a, b int) bool { return cases[a].DNSDest == "none" && cases[b].DNSDest != "none" })
+	startE2EDNS(t)
 	var ops []map[string]any
 	var readFrom sync.Map // stalled cases: when the reader of the output pipe started to read (wall clock)
 	for k, c := range cases {
@@ -458,6 +518,9 @@ func TestDrv_E2E(t *testing.T) {
 			}
 			o["prom_count"] = n
 		}
+		e2eDNSMu.Lock()
+		o["dnsq"] = e2eDNSQueries[c.dnsName(fmt.Sprintf("e2e%03d", k))+"."]
+		e2eDNSMu.Unlock()
 		tr.Emit("Run", KV{"c": c, "o": o})
 		requests += len(qs)
 		results += len(rs)
